@@ -19,6 +19,18 @@ CHECKS = {
         note="Trusted: Lean kernel; axioms propext/Quot.sound; Spec/DataServer.lean as the reading of RFC 5321; the hand-written "
              "model + correspondence harness (exhaustive for the transition table, sampled for whole messages); TCP loopback.",
         technique="Lean 4 proof by induction over the message + exhaustive/sampled model-vs-code correspondence"),
+    "C15": dict(
+        category="proof",
+        text="Lean theorems over a byte-machine model of parse_response and of read_response: parse_complete / parse_sound (the "
+             "accepted language is exactly the RFC 5321 4.2 renderings of well-formed replies, value preserved, exact consumption), "
+             "answer_stable + prefix_incomplete (segmentation independence, no premature answer), read_consumes_exactly, eof_is_error, "
+             "classify_first_digit, serverinfo_exact. The model is tied to the code by every string over a 9-symbol alphabet up to "
+             "length 5/6 through a parse_response hook, rendered replies with witnesses, and the real sync and tokio read_response fed "
+             "over loopback with the stream cut at every split point.",
+        design_ref="DESIGN.md 5 C15",
+        note="Trusted: Lean kernel; axioms propext/Quot.sound/Classical.choice; Spec/ReplyGrammar.lean as the reading of RFC 5321 4.2; the "
+             "hand-written model + correspondence harness; BufRead::read_line semantics; a never-completing open stream is C20's subject.",
+        technique="Lean 4 proof (invariant over a parsing machine, streaming monotonicity) + exhaustive/sampled model-vs-code correspondence"),
 }
 
 NOT_APPLICABLE = {
